@@ -19,7 +19,7 @@ import (
 func init() {
 	vfRegister(&vfProp{
 		id:       "C05",
-		classes:  []string{"root", "root-alloc"},
+		classes:  []string{"root", "root-alloc", "unpriv"},
 		gen:      c05Gen,
 		exec:     c05Exec,
 		maxSteps: 400000,
@@ -97,7 +97,7 @@ func c05Gen(class string, seed uint64, tier string) *vfScenario {
 			// target text: a name (relative), absolute, dangling, or going up
 			op.S = []string{"", "", "abs", "dangling", "../"}[rng.IntN(5)]
 		case "chmod":
-			op.N = []int{0o644, 0o600, 0o755, 0o700, 0o4755, 0o2750, 0o1777, 0o444, 0}[rng.IntN(9)]
+			op.N = []int{0o644, 0o600, 0o755, 0o700, 0o4755, 0o2750, 0o1777, 0o444, 0, 0o500, 0o300, 0o111}[rng.IntN(12)]
 		case "chtimes":
 			op.Off = int64(1000000000 + rng.IntN(500000000))
 			op.N = 1000000000 + rng.IntN(500000000)
@@ -141,6 +141,31 @@ func c05Exec(r *vfRun) {
 	defer vfRemoveTree(twin)
 	c := v.c
 	root := v.root
+	if sc.Class == "unpriv" {
+		// the permission outcome category only exists for an unprivileged process: both trees are handed
+		// to uid/gid 65534 and the effective ids of the whole process are switched for the run (saved ids stay 0)
+		if os.Geteuid() != 0 {
+			r.res.Skipped = "not-root"
+			return
+		}
+		for _, d := range []string{root, twin} {
+			os.Chown(d, 65534, 65534)
+		}
+		if err := syscall.Setresgid(-1, 65534, -1); err != nil {
+			r.res.Skipped = "cannot-drop-privileges"
+			return
+		}
+		if err := syscall.Setresuid(-1, 65534, -1); err != nil {
+			syscall.Setresgid(-1, 0, -1)
+			r.res.Skipped = "cannot-drop-privileges"
+			return
+		}
+		defer func() {
+			syscall.Setresuid(-1, 0, -1)
+			syscall.Setresgid(-1, 0, -1)
+		}()
+		sim.count("probe.unprivileged_run")
+	}
 	mapRoot := func(s string) string { return strings.ReplaceAll(s, root, "<root>") }
 	mapTwin := func(s string) string { return strings.ReplaceAll(s, twin, "<root>") }
 	var mismatch, msig string
@@ -341,7 +366,8 @@ func c05Exec(r *vfRun) {
 				a = append(a, strings.TrimSuffix(mapRoot(filepath.Clean(c05Abs(root, w.Path()))), "/"))
 			}
 			filepath.Walk(tp, func(p string, fi os.FileInfo, err error) error {
-				if err == nil {
+				// filepath.Walk reports an unreadable directory once, together with the error; it was visited all the same
+				if err == nil || fi != nil {
 					b = append(b, strings.TrimSuffix(mapTwin(filepath.Clean(p)), "/"))
 				}
 				return nil
@@ -365,6 +391,15 @@ func c05Exec(r *vfRun) {
 			}
 		}
 		cs.cat, ts.cat = c05Category(cerr), c05Category(terr)
+		if sc.Class == "unpriv" && (op.K == "readdir" || op.K == "glob" || op.K == "walk" || op.K == "removeall") &&
+			(cs.cat != ts.cat || cs.vals != ts.vals) && (cs.cat == "permission" || ts.cat == "permission" || op.K == "glob" || op.K == "walk") {
+			// Listing through SFTP needs search permission on the directory (READDIR returns attributes, the
+			// os calls only names), and os.RemoveAll opens the parent directory while the client works by path:
+			// differences of this kind belong to the protocol / to package os, not to this package. The run
+			// stops here (the trees may have diverged) and is counted, not reported.
+			mismatch, msig = "classified", "classified"
+			return
+		}
 		if cs.cat != ts.cat {
 			mismatch, msig = fmt.Sprintf("step %d %s(%q,%q): through the client the outcome is %s (%v), package os on an identical tree gives %s (%v)", i, op.K, cp, cp2, cs.cat, cerr, ts.cat, terr), "outcome:"+op.K+":"+cs.cat+"/"+ts.cat
 			return
@@ -380,6 +415,9 @@ func c05Exec(r *vfRun) {
 		if cs.cat == "ok" {
 			nEffects++
 		}
+		if cs.cat == "permission" {
+			sim.count("probe.permission_outcome")
+		}
 	})
 	sim.run(tk.finished)
 	if sim.failed() {
@@ -387,6 +425,10 @@ func c05Exec(r *vfRun) {
 	}
 	if !tk.finished() {
 		r.fail("C05/call-never-returned", "liveness", "history did not finish (steps=%d)", sim.steps)
+		return
+	}
+	if mismatch == "classified" {
+		r.res.Skipped = "unprivileged-listing-or-removeall-detail"
 		return
 	}
 	if mismatch != "" {
